@@ -1,6 +1,7 @@
 """Property table: families, generators, evidence text.  One entry per property id."""
 import json
 import os
+import random
 
 import vlib
 from vlib import Family
@@ -1123,14 +1124,14 @@ def gen_sched(tier, rng, with_faults):
                 scheds.append([(0, rng.randrange(1, 100)) for _ in range(60)])  # arbitrary short reads
                 scheds.append([(0, 64), (0, 1), (0, 63), (0, 1024)] * 10)
                 for sc in scheds:
-                    for driver in (0, 1):
+                    for driver in (0, 1, 2):
                         evs = list(sc)
                         # Pending between polls (async) / Interrupted anywhere (sync)
                         mixed = []
                         for e in evs:
                             if driver == 1 and rng.random() < 0.4:
                                 mixed.append((2, 0))
-                            if driver == 0 and rng.random() < 0.2:
+                            if driver in (0, 2) and rng.random() < 0.2:
                                 mixed.append((1, 0))
                             mixed.append(e)
                         for cut in (0, 0, rng.randrange(1, L + 1) if L else 0):
@@ -1140,7 +1141,7 @@ def gen_sched(tier, rng, with_faults):
                     for k in range(0, 2 * len(lay) + 3):
                         for kindc in ((0, 1, 2, 3) if tier == "thorough" else (rng.randrange(0, 4),)):
                             sc = rng.choice(scheds)
-                            cases.append(sched_case(0, sd, size, bs, 0, (k + 1, kindc), 0, q, sc))
+                            cases.append(sched_case(0, sd, size, bs, rng.choice([0, 0, 2]), (k + 1, kindc), 0, q, sc))
         # outboard creation through a scheduled data reader
         for bs in range(0, 3):
             sd = seed(rng)
@@ -1470,6 +1471,31 @@ PROPS["C04"] = Prop(
 
 
 # ------------------------------------------------------------------ what each check establishes (MANIFEST level text)
+# ------------------------------------------------------------------ transports that fragment, in the checks of the
+# properties whose code does the reading / writing (so that a slip in a read or write loop is reported there too)
+def _with(pid, fams, extra, note):
+    old = PROPS[pid]
+    g = old.gen
+    PROPS[pid] = Prop(old.families + [f for f in fams if f not in old.families],
+                      (lambda tier, rng, g=g: g(tier, rng) + extra(tier, rng)), old.rule + " " + note,
+                      trusted=old.trusted, assumptions=old.assumptions)
+
+
+_with("C02", [F_SCHED], lambda tier, rng: [c for c in gen_sched(tier, random.Random(rng.randrange(1 << 30)), False)
+                                         if c[1][4] in (0, 1, 2) and c[1][7] == 0][:: (3 if tier == "quick" else 1)],
+      "sched: the same honest streams delivered through transports that fragment, interrupt and suspend (decoder iterators and decode_ranges, "
+      "with further bytes behind the response).")
+_with("C09", [F_SCHED], lambda tier, rng: [c for c in gen_sched(tier, random.Random(rng.randrange(1 << 30)), False)
+                                         if c[1][4] in (0, 1, 2)][:: (3 if tier == "quick" else 1)],
+      "sched: honest and truncated streams delivered through fragmenting transports (a short read is not an end of stream).")
+_with("C03", [F_SCHED], lambda tier, rng: [c for c in gen_sched(tier, random.Random(rng.randrange(1 << 30)), False) if c[1][4] in (4, 5)],
+      "sched: creation reading the blob through fragmenting / interrupting readers.")
+_with("C04", [F_SHORTW], lambda tier, rng: [c for c in gen_shortw(tier, random.Random(rng.randrange(1 << 30)))
+                                          if c[1][4] in (0, 1, 3, 5) and c[1][6] == BIGCAP],
+      "shortw: the sync encoders writing into sinks that take few bytes per call and reading data / outboard through stores with short positioned reads.")
+
+
+
 STATUS = {
  "C01": "Proved for every stream (hash_ok hypothesis): both decoders, set up with the blob's root / size / block size and any well-formed non-empty query, yield a prefix of the honest items, finish only on streams that start with the honest encoding, fail exactly where the stream departs, never panic (C01_e2e_sync/fsm), and decode_ranges writes only those items' bytes (C01_e2e_decode_ranges*). Stated up to the first error; past-the-error behaviour of the fsm decoder is known finding F7. Wrong claimed sizes: C16.",
  "C02": "Proved (hash_ok): on any store created by the crate both validating encoders return flat(honest) (C02_enc_is_spec_*, C05_created_store_ok), and every decoder (sync, fsm, decode_ranges) fed that encoding followed by arbitrary further bytes yields exactly the honest items, finishes, and leaves the further bytes unread (C02_roundtrip_full_*); the leaves deliver exactly the selected chunks (C02_delivers_selection); the empty query encodes / decodes to nothing.",
